@@ -1,35 +1,33 @@
 (* C12/C20: the glob and LIKE converters of util/glob.rs against textbook wildcard semantics.
 
    Chain of the main theorems (no dedicated tokenizer: everything goes through the GENERAL
-   parser parse_regex of lib/RegexParse.v):
+   parser parse_regex of lib/RegexParse.v), for EVERY pattern p and EVERY subject w:
      convert tbl p  --parse_regex-->  {anchored both sides; body = re_of_wild p}   (parse_convert)
-     lang (re_of_wild p) w <-> wild p w            for newline-free w              (lang_wild)
+     lang (re_of_wild p) w <-> wild p w                                           (lang_wild)
      wild_spec p w = true <-> wild p w                                            (wild_spec_ok)
-   hence  is_match (convert tbl p) w = Some (wild_spec p w)  for safe p, newline-free w.
+   hence  is_match (convert tbl p) w = Some (wild_spec p w), with no side condition.
 
    Everything is done once for an arbitrary pair of wildcard characters (st = any run,
    on = exactly one) and instantiated with (42 `*`, 63 `?`) for glob, (37 `%`, 95 `_`) for LIKE.
+   The replacement tables are the GENERATED ones (gen/GlobGen.v through model/Glob.v); the
+   only table-specific proofs are glob_step / like_step (one line per table row).
+
+   History: with the tables and the `^(?i)` prefix of the previous source these theorems
+   needed the side conditions glob_safe / like_safe (no `+ { } | \`, for LIKE no `?`) and
+   no_newline, and each condition was shown necessary (F24, F25, F26).  The repaired source
+   escapes those characters and uses `^(?is)`; the refutations are replaced by the
+   regression lemmas at the end of this file.
 
    Inherited modelling limit (see lib/Regex.v): (?i) is modelled as ASCII case folding, and
    the specification below is ASCII-case-insensitive as well; Rust's (?i) additionally
    identifies non-ASCII simple case variants.  Checked on the real crate (oracle/conv.rs):
    glob "\u{e9}*" matches "\u{c9}", "k*" matches U+212A, "s?" matches U+017F followed by "1",
    whereas is_match / glob_spec say false.  So the theorems below speak about the real
-   binary only for pattern/subject pairs without such characters (e.g. ASCII ones); on that
-   domain oracle/ confirms them on 6064 random cases. *)
+   binary only for pattern/subject pairs without such characters (e.g. ASCII ones). *)
 From Coq Require Import List NArith Bool Lia String.
 From FS Require Import lib.Str lib.Regex lib.RegexParse model.Glob.
 Import ListNotations.
 Open Scope N_scope.
-
-Definition no_newline (w : str) : bool := forallb (fun c => negb (c =? 10)) w.
-
-Lemma no_newline_cons d t :
-  no_newline (d :: t) = true <-> negb (d =? 10) = true /\ no_newline t = true.
-Proof. unfold no_newline. cbn [forallb]. apply andb_true_iff. Qed.
-Lemma no_newline_app u v :
-  no_newline (u ++ v) = true <-> no_newline u = true /\ no_newline v = true.
-Proof. unfold no_newline. rewrite forallb_app. apply andb_true_iff. Qed.
 
 (* f holds of some suffix of t *)
 Fixpoint any_suffix (f : str -> bool) (t : str) : bool :=
@@ -111,94 +109,78 @@ Proof.
            destruct Hc as [Hc|Hc]; [congruence|now apply N.eqb_eq].
 Qed.
 
-(* the regex the converter is meant to produce *)
+(* the regex the converter is meant to produce (flag s: `.` is AnyNL) *)
 Definition item (c : N) : re :=
-  if c =? st then Star Any else if c =? on then Any else ChrI c.
+  if c =? st then Star AnyNL else if c =? on then AnyNL else ChrI c.
 Definition re_of_wild (p : str) : re := fold_right Seq Eps (map item p).
 
-Lemma star_any w : no_newline w = true -> lang (Star Any) w.
+Theorem lang_wild p : forall w, lang (re_of_wild p) w <-> wild p w.
 Proof.
-  induction w as [|c w IH]; intros H; [constructor|].
-  apply no_newline_cons in H. destruct H as [H1 H2]. change (c :: w) with ([c] ++ w).
-  apply LStarS; [constructor; exact H1|now apply IH].
-Qed.
-
-Theorem lang_wild p : forall w, no_newline w = true -> (lang (re_of_wild p) w <-> wild p w).
-Proof.
-  induction p as [|c p IH]; intros w NL.
+  induction p as [|c p IH]; intros w.
   - change (re_of_wild []) with Eps. rewrite lang_eps_iff. split.
     + intros ->. constructor.
     + apply wild_nil_inv.
   - change (re_of_wild (c :: p)) with (Seq (item c) (re_of_wild p)). rewrite lang_seq_iff.
     unfold item. destruct (N.eqb_spec c st) as [->|Ns]; [|destruct (N.eqb_spec c on) as [->|No]].
     + split.
-      * intros (u & v & -> & _ & Hv). constructor. apply no_newline_app in NL. now apply IH.
+      * intros (u & v & -> & _ & Hv). constructor. now apply IH.
       * intros H. apply wild_cons_inv in H.
         destruct H as [[_ (u & v & -> & H)]|[Ne _]]; [|congruence].
-        apply no_newline_app in NL. destruct NL as [NLu NLv].
-        exists u, v. split; [reflexivity|]. split; [now apply star_any|now apply IH].
+        exists u, v. split; [reflexivity|]. split; [apply star_anynl|now apply IH].
     + split.
       * intros (u & v & -> & Hu & Hv). apply lang_sym in Hu. destruct Hu as (d & -> & _).
-        cbn [app] in NL |- *. apply no_newline_cons in NL. apply WOne; [assumption|now apply IH].
+        cbn [app]. apply WOne; [assumption|now apply IH].
       * intros H. apply wild_cons_inv in H.
         destruct H as [[E _]|[_ (d & t & -> & _ & H)]]; [congruence|].
-        apply no_newline_cons in NL. destruct NL as [NLd NLt].
-        exists [d], t. split; [reflexivity|]. split; [constructor; exact NLd|now apply IH].
+        exists [d], t. split; [reflexivity|]. split; [now constructor|now apply IH].
     + split.
       * intros (u & v & -> & Hu & Hv). apply lang_sym in Hu. destruct Hu as (d & -> & T).
-        cbn [cset_test] in T. apply N.eqb_eq in T.
-        cbn [app] in NL |- *. apply no_newline_cons in NL.
+        cbn [cset_test] in T. apply N.eqb_eq in T. cbn [app].
         apply WLit; [assumption|assumption|now symmetry|now apply IH].
       * intros H. apply wild_cons_inv in H.
         destruct H as [[E _]|[_ (d & t & -> & Hc & H)]]; [congruence|].
         destruct Hc as [Hc|Hc]; [congruence|].
-        apply no_newline_cons in NL. destruct NL as [NLd NLt].
         exists [d], t. split; [reflexivity|]. split; [|now apply IH].
         constructor. cbn [cset_test]. apply N.eqb_eq. now symmetry.
 Qed.
 
-Theorem matches_wild p w : no_newline w = true -> matches (re_of_wild p) w = wild_spec p w.
-Proof.
-  intros NL. apply eq_true_iff_eq. rewrite matches_ok, wild_spec_ok. now apply lang_wild.
-Qed.
+Theorem matches_wild p w : matches (re_of_wild p) w = wild_spec p w.
+Proof. apply eq_true_iff_eq. rewrite matches_ok, wild_spec_ok. apply lang_wild. Qed.
 
 (* ---- the general parser on the converter's output ----
-   Step tbl safe: the replacement text of one safe character, in front of anything, makes
-   the parser push exactly `item c` (q' is the "just saw a quantifier" flag). *)
-Definition Step (tbl : repl_table) (safe : N -> bool) : Prop :=
-  forall c, safe c = true -> forall sq q rest, exists q',
-    go true [] [] sq q None (subst1 tbl c ++ rest) = go true [] [] (item c :: sq) q' None rest.
+   Step tbl: the replacement text of ANY character, in front of anything, makes the parser
+   (flags i and s on) push exactly `item c` (q' is the "just saw a quantifier" flag). *)
+Definition Step (tbl : repl_table) : Prop :=
+  forall c sq q rest, exists q',
+    go true true [] [] sq q None (subst1 tbl c ++ rest) = go true true [] [] (item c :: sq) q' None rest.
 
-Lemma go_body tbl safe : Step tbl safe ->
-  forall p, forallb safe p = true -> forall sq q rest, exists q',
-    go true [] [] sq q None (flat_map (subst1 tbl) p ++ rest)
-    = go true [] [] (rev (map item p) ++ sq) q' None rest.
+Lemma go_body tbl : Step tbl ->
+  forall p sq q rest, exists q',
+    go true true [] [] sq q None (flat_map (subst1 tbl) p ++ rest)
+    = go true true [] [] (rev (map item p) ++ sq) q' None rest.
 Proof.
-  intros HS. induction p as [|c p IH]; intros S sq q rest.
+  intros HS. induction p as [|c p IH]; intros sq q rest.
   - exists q. reflexivity.
-  - cbn [forallb] in S. apply andb_true_iff in S. destruct S as [Sc Sp].
-    cbn [flat_map map rev]. rewrite <- !app_assoc.
-    destruct (HS c Sc sq q (flat_map (subst1 tbl) p ++ rest)) as [q1 E1]. rewrite E1.
-    destruct (IH Sp (item c :: sq) q1 rest) as [q2 E2]. rewrite E2.
+  - cbn [flat_map map rev]. rewrite <- !app_assoc.
+    destruct (HS c sq q (flat_map (subst1 tbl) p ++ rest)) as [q1 E1]. rewrite E1.
+    destruct (IH (item c :: sq) q1 rest) as [q2 E2]. rewrite E2.
     exists q2. reflexivity.
 Qed.
 
-Theorem parse_convert tbl safe : Step tbl safe ->
-  forall p, forallb safe p = true ->
-  parse_regex (convert tbl p) = Some (mkrx true true (re_of_wild p)).
+Theorem parse_convert tbl : Step tbl ->
+  forall p, parse_regex (convert tbl p) = Some (mkrx true true (re_of_wild p)).
 Proof.
-  intros HS p S. unfold convert.
-  change (s "^(?i)") with [94; 40; 63; 105; 41]. change (s "$") with [36]. cbn [app].
-  rewrite parse_regex_anchored_ci.
-  destruct (go_body tbl safe HS p S [] false [36]) as [q' E]. rewrite E.
+  intros HS p. unfold convert.
+  change (s "^(?is)") with [94; 40; 63; 105; 115; 41]. change (s "$") with [36]. cbn [app].
+  rewrite parse_regex_anchored_cis.
+  destruct (go_body tbl HS p [] false [36]) as [q' E]. rewrite E.
   rewrite go_dollar_end, app_nil_r, close_seq_rev. reflexivity.
 Qed.
 
-Theorem is_match_convert tbl safe : Step tbl safe ->
-  forall p w, forallb safe p = true -> no_newline w = true ->
-  is_match (convert tbl p) w = Some (wild_spec p w).
+Theorem is_match_convert tbl : Step tbl ->
+  forall p w, is_match (convert tbl p) w = Some (wild_spec p w).
 Proof.
-  intros HS p w S NL. unfold is_match. rewrite (parse_convert tbl safe HS p S).
+  intros HS p w. unfold is_match. rewrite (parse_convert tbl HS p).
   unfold rx_re. cbn [anchored_start anchored_end body]. now rewrite matches_wild.
 Qed.
 
@@ -209,50 +191,38 @@ Definition glob_rel : str -> str -> Prop := wild 42 63.
 Definition glob_spec : str -> str -> bool := wild_spec 42 63.
 Definition re_of_glob : str -> re := re_of_wild 42 63.
 
-(* the regex meta characters the glob table leaves unescaped: + { } | \   (F24) *)
-Definition glob_unsafe_chars : list N := [43; 123; 125; 124; 92].
-Definition glob_safe_char (c : N) : bool := negb (existsb (N.eqb c) glob_unsafe_chars).
-Definition glob_safe (p : str) : bool := forallb glob_safe_char p.
-
 (* ================= LIKE: `%` = 37, `_` = 95 ================= *)
 Definition like_rel : str -> str -> Prop := wild 37 95.
 Definition like_spec : str -> str -> bool := wild_spec 37 95.
 Definition re_of_like : str -> re := re_of_wild 37 95.
 
-(* as above, plus `?` which the LIKE table turns into `.?`   (F26) *)
-Definition like_unsafe_chars : list N := [43; 123; 125; 124; 92; 63].
-Definition like_safe_char (c : N) : bool := negb (existsb (N.eqb c) like_unsafe_chars).
-Definition like_safe (p : str) : bool := forallb like_safe_char p.
-
 (* c is key k of the table: the replacement is closed, both sides compute *)
 Ltac key_case c k :=
   destruct (N.eqb_spec c k) as [->|?]; [eexists; reflexivity|].
-(* c is excluded by the safety hypothesis S *)
-Ltac unsafe_case S c k :=
-  destruct (N.eqb_spec c k) as [->|?]; [vm_compute in S; discriminate S|].
 
-Lemma glob_step : Step 42 63 glob_table glob_safe_char.
+(* a character that is no table key is no regex meta character either: it stands for itself *)
+Lemma glob_step : Step 42 63 glob_table.
 Proof.
-  intros c S sq q rest.
-  key_case c 46. key_case c 42. key_case c 63. key_case c 91. key_case c 93.
-  key_case c 40. key_case c 41. key_case c 94. key_case c 36.
-  unsafe_case S c 43. unsafe_case S c 123. unsafe_case S c 125. unsafe_case S c 124.
-  unsafe_case S c 92.
+  intros c sq q rest.
+  key_case c 63. key_case c 46. key_case c 42. key_case c 91. key_case c 93. key_case c 40.
+  key_case c 41. key_case c 94. key_case c 36. key_case c 43. key_case c 123. key_case c 125.
+  key_case c 124. key_case c 92.
   assert (L : subst1 glob_table c = [c]).
-  { unfold subst1, glob_table, FS.gen.GlobGen.glob_table. cbn [lookup]. rewrite !(proj2 (N.eqb_neq c _)) by assumption. reflexivity. }
+  { unfold subst1, glob_table, FS.gen.GlobGen.glob_table. cbn [lookup].
+    rewrite !(proj2 (N.eqb_neq c _)) by assumption. reflexivity. }
   rewrite L. cbn [app]. rewrite go_lit by (apply classify_lit; assumption).
   exists false. unfold item. rewrite !(proj2 (N.eqb_neq c _)) by assumption. reflexivity.
 Qed.
 
-Lemma like_step : Step 37 95 like_table like_safe_char.
+Lemma like_step : Step 37 95 like_table.
 Proof.
-  intros c S sq q rest.
-  key_case c 37. key_case c 95. unsafe_case S c 63. key_case c 46. key_case c 42. key_case c 91.
-  key_case c 93. key_case c 40. key_case c 41. key_case c 94. key_case c 36.
-  unsafe_case S c 43. unsafe_case S c 123. unsafe_case S c 125. unsafe_case S c 124.
-  unsafe_case S c 92.
+  intros c sq q rest.
+  key_case c 37. key_case c 95. key_case c 63. key_case c 46. key_case c 42. key_case c 91.
+  key_case c 93. key_case c 40. key_case c 41. key_case c 94. key_case c 36. key_case c 43.
+  key_case c 123. key_case c 125. key_case c 124. key_case c 92.
   assert (L : subst1 like_table c = [c]).
-  { unfold subst1, like_table, FS.gen.GlobGen.like_table. cbn [lookup]. rewrite !(proj2 (N.eqb_neq c _)) by assumption. reflexivity. }
+  { unfold subst1, like_table, FS.gen.GlobGen.like_table. cbn [lookup].
+    rewrite !(proj2 (N.eqb_neq c _)) by assumption. reflexivity. }
   rewrite L. cbn [app]. rewrite go_lit by (apply classify_lit; assumption).
   exists false. unfold item. rewrite !(proj2 (N.eqb_neq c _)) by assumption. reflexivity.
 Qed.
@@ -261,27 +231,26 @@ Qed.
 Theorem glob_spec_ok p w : glob_spec p w = true <-> glob_rel p w.
 Proof. apply wild_spec_ok. Qed.
 
-Theorem glob_parse p : glob_safe p = true ->
+(* in particular Regex::new never fails on a converted glob (within the model) *)
+Theorem glob_parse p :
   parse_regex (convert_glob_to_pattern p) = Some (mkrx true true (re_of_glob p)).
-Proof. apply (parse_convert 42 63 glob_table glob_safe_char glob_step). Qed.
+Proof. apply (parse_convert 42 63 glob_table glob_step). Qed.
 
 Theorem glob_regex_correct p subj :
-  glob_safe p = true -> no_newline subj = true ->
   is_match (convert_glob_to_pattern p) subj = Some (glob_spec p subj).
-Proof. apply (is_match_convert 42 63 glob_table glob_safe_char glob_step). Qed.
+Proof. apply (is_match_convert 42 63 glob_table glob_step). Qed.
 
 (* ---- LIKE: main results ---- *)
 Theorem like_spec_ok p w : like_spec p w = true <-> like_rel p w.
 Proof. apply wild_spec_ok. Qed.
 
-Theorem like_parse p : like_safe p = true ->
+Theorem like_parse p :
   parse_regex (convert_like_to_pattern p) = Some (mkrx true true (re_of_like p)).
-Proof. apply (parse_convert 37 95 like_table like_safe_char like_step). Qed.
+Proof. apply (parse_convert 37 95 like_table like_step). Qed.
 
 Theorem like_regex_correct p subj :
-  like_safe p = true -> no_newline subj = true ->
   is_match (convert_like_to_pattern p) subj = Some (like_spec p subj).
-Proof. apply (is_match_convert 37 95 like_table like_safe_char like_step). Qed.
+Proof. apply (is_match_convert 37 95 like_table like_step). Qed.
 
 (* ---- the operators of searcher.rs ---- *)
 Lemma negatives_complement val subj :
@@ -289,81 +258,77 @@ Lemma negatives_complement val subj :
   notlike_verdict val subj = option_map negb (like_verdict val subj).
 Proof. unfold ne_verdict, eq_verdict, notlike_verdict, like_verdict. destruct (is_glob val); split; reflexivity. Qed.
 
+(* `=` / `!=`: glob semantics when the value contains * or ?, exact comparison otherwise *)
 Corollary eq_ne_verdict_correct p subj :
-  is_glob p = true -> glob_safe p = true -> no_newline subj = true ->
-  eq_verdict p subj = Some (glob_spec p subj) /\ ne_verdict p subj = Some (negb (glob_spec p subj)).
+  eq_verdict p subj = Some (if is_glob p then glob_spec p subj else str_eqb p subj) /\
+  ne_verdict p subj = Some (negb (if is_glob p then glob_spec p subj else str_eqb p subj)).
 Proof.
-  intros G S NL. unfold ne_verdict, eq_verdict. rewrite G, (glob_regex_correct p subj S NL). split; reflexivity.
+  unfold ne_verdict, eq_verdict. rewrite (glob_regex_correct p subj).
+  destruct (is_glob p); split; reflexivity.
 Qed.
 
 Corollary like_notlike_verdict_correct p subj :
-  like_safe p = true -> no_newline subj = true ->
-  like_verdict p subj = Some (like_spec p subj) /\ notlike_verdict p subj = Some (negb (like_spec p subj)).
+  like_verdict p subj = Some (like_spec p subj) /\
+  notlike_verdict p subj = Some (negb (like_spec p subj)).
 Proof.
-  intros S NL. unfold notlike_verdict, like_verdict. rewrite (like_regex_correct p subj S NL). split; reflexivity.
+  unfold notlike_verdict, like_verdict. rewrite (like_regex_correct p subj). split; reflexivity.
 Qed.
 
-(* ---- the premises are satisfiable on non-trivial patterns ---- *)
-Example glob_premises_ok :
-  glob_safe (s "*.[Tt]x?^$(1)") = true /\ no_newline (s "Read Me.[tT]XT^$(1)") = true /\
-  is_match (convert_glob_to_pattern (s "*.[Tt]x?^$(1)")) (s "Read Me.[tT]XT^$(1)") = Some true.
-Proof.
-  assert (S : glob_safe (s "*.[Tt]x?^$(1)") = true) by (vm_compute; reflexivity).
-  assert (NL : no_newline (s "Read Me.[tT]XT^$(1)") = true) by (vm_compute; reflexivity).
-  split; [exact S|split; [exact NL|]]. rewrite (glob_regex_correct _ _ S NL). vm_compute. reflexivity.
-Qed.
+(* ---- instances of the theorems on non-trivial patterns ---- *)
+Example glob_instance :
+  is_match (convert_glob_to_pattern (s "*.[Tt]x?^$(1)+{|}\")) (s "Read Me.[tT]XT^$(1)+{|}\") = Some true.
+Proof. rewrite glob_regex_correct. vm_compute. reflexivity. Qed.
 
-Example like_premises_ok :
-  like_safe (s "%.t_t*[1]") = true /\ no_newline (s "a b.TxT*[1]") = true /\
-  is_match (convert_like_to_pattern (s "%.t_t*[1]")) (s "a b.TxT*[1]") = Some true.
-Proof.
-  assert (S : like_safe (s "%.t_t*[1]") = true) by (vm_compute; reflexivity).
-  assert (NL : no_newline (s "a b.TxT*[1]") = true) by (vm_compute; reflexivity).
-  split; [exact S|split; [exact NL|]]. rewrite (like_regex_correct _ _ S NL). vm_compute. reflexivity.
-Qed.
+Example like_instance :
+  is_match (convert_like_to_pattern (s "%.t_t*[1]?+")) (s "a b.TxT*[1]?+") = Some true.
+Proof. rewrite like_regex_correct. vm_compute. reflexivity. Qed.
 
-(* ---- each side condition is necessary: refutations by computation ---- *)
-(* F24: an unescaped meta character changes the verdict (`f+*` vs "ff1") *)
-Lemma F24_refuted : exists p subj,
-  no_newline subj = true /\ glob_spec p subj <> true /\
-  is_match (convert_glob_to_pattern p) subj = Some true.
-Proof. exists (s "f+*"), (s "ff1"). vm_compute. repeat split; discriminate. Qed.
+(* ---- regression lemmas for the repaired defects (each was a refutation before) ---- *)
+(* F24: `+` is a literal now: `f+*` no longer matches "ff1", it matches "f+1" *)
+Lemma F24_fixed :
+  is_match (convert_glob_to_pattern (s "f+*")) (s "ff1") = Some false /\
+  is_match (convert_glob_to_pattern (s "f+*")) (s "F+1") = Some true.
+Proof. vm_compute. split; reflexivity. Qed.
 
-(* F24, backslash variant: the final `$` gets escaped, `*\` matches "x$" *)
-Lemma F24_backslash_refuted : exists p subj,
-  no_newline subj = true /\ glob_spec p subj = false /\
-  is_match (convert_glob_to_pattern p) subj = Some true.
-Proof. exists (s "*\"), (s "x$"). vm_compute. repeat split. Qed.
+(* F24: `{` used to make Regex::new fail (then `=` silently fell back to exact comparison) *)
+Lemma F24_brace_fixed :
+  is_match (convert_glob_to_pattern (s "x{*")) (s "x{1}") = Some true /\
+  is_match (convert_glob_to_pattern (s "x{*")) (s "x1}") = Some false.
+Proof. vm_compute. split; reflexivity. Qed.
 
-(* F24 for LIKE *)
-Lemma F24_like_refuted : exists p subj,
-  no_newline subj = true /\ like_spec p subj = false /\
-  is_match (convert_like_to_pattern p) subj = Some true.
-Proof. exists (s "a+"), (s "aa"). vm_compute. repeat split. Qed.
+(* F24: a trailing backslash used to escape the final `$` *)
+Lemma F24_backslash_fixed :
+  is_match (convert_glob_to_pattern (s "*\")) (s "x$") = Some false /\
+  is_match (convert_glob_to_pattern (s "*\")) (s "x\") = Some true.
+Proof. vm_compute. split; reflexivity. Qed.
 
-(* `|` is unsafe too, but `^(?i)a|b$` binds each anchor to one branch only, which is outside
-   the two-boolean anchor model of lib/RegexParse.v: the model gives no verdict there. *)
-Example F24_bar_outside_model : is_match (convert_like_to_pattern (s "a|b")) (s "a") = None.
-Proof. vm_compute. reflexivity. Qed.
+(* F24: `|` used to split the pattern into two half-anchored branches *)
+Lemma F24_bar_fixed :
+  is_match (convert_like_to_pattern (s "a|b")) (s "a") = Some false /\
+  is_match (convert_like_to_pattern (s "a|b")) (s "A|B") = Some true.
+Proof. vm_compute. split; reflexivity. Qed.
 
-(* F25: the pattern is safe, the subject contains a newline *)
-Lemma F25_refuted : exists p subj,
-  glob_safe p = true /\ glob_spec p subj = true /\
-  is_match (convert_glob_to_pattern p) subj = Some false.
-Proof. exists (s "a*"), [97; 10; 98]. vm_compute. repeat split. Qed.
+(* F25: wildcards span newlines *)
+Lemma F25_fixed :
+  is_match (convert_glob_to_pattern (s "a*")) [97; 10; 98] = Some true /\
+  is_match (convert_glob_to_pattern (s "a?b")) [97; 10; 98] = Some true /\
+  is_match (convert_like_to_pattern (s "a%_")) [97; 10; 10] = Some true.
+Proof. vm_compute. repeat split; reflexivity. Qed.
 
-(* F26: `?` in a LIKE pattern behaves as an optional wildcard *)
-Lemma F26_refuted : exists p subj,
-  no_newline subj = true /\ like_spec p subj = false /\
-  is_match (convert_like_to_pattern p) subj = Some true.
-Proof. exists (s "a?"), (s "a"). vm_compute. repeat split. Qed.
+(* F26: `?` in a LIKE pattern is an ordinary character *)
+Lemma F26_fixed :
+  is_match (convert_like_to_pattern (s "a?")) (s "a?") = Some true /\
+  is_match (convert_like_to_pattern (s "a?")) (s "a") = Some false /\
+  is_match (convert_like_to_pattern (s "a?")) (s "ab") = Some false.
+Proof. vm_compute. repeat split; reflexivity. Qed.
 
 Print Assumptions glob_regex_correct.
 Print Assumptions like_regex_correct.
 Print Assumptions glob_parse.
 Print Assumptions like_parse.
 Print Assumptions glob_spec_ok.
+Print Assumptions like_spec_ok.
 Print Assumptions eq_ne_verdict_correct.
 Print Assumptions like_notlike_verdict_correct.
 Print Assumptions negatives_complement.
-Print Assumptions F24_refuted.
+Print Assumptions F24_fixed.
